@@ -129,6 +129,9 @@ def create_archive(
                 str(output_archive_path),
                 "-C",  # Files to put in the archive are relative to `ctx.output_path`
                 str(ctx.output_path),
+                # Task names and directories may start with a dash; everything
+                # after `--` is a file name, never an option.
+                "--",
                 str(archive_index_path.relative_to(ctx.output_path)),
                 *output_dirs_str,
             ],
